@@ -296,6 +296,22 @@ JExportProblem(e, st) ==
            ELSE Ok(st)
 
 ----------------------------------------------------------------------------
+(* Renaming (C18): the handle e.h is a second parse of the same text whose   *)
+(* action e.act had its parameters renamed in place by the map e.map.        *)
+
+JRename(e, st) ==
+  LET D == st[e.d].D
+      a == ActionNamed(D, e.act)
+      m == e.map
+      b == RenameAction(a, m)
+      D2 == [D EXCEPT !.actions = [i \in DOMAIN D.actions |-> IF D.actions[i].name = e.act THEN b ELSE D.actions[i]]]
+      s2 == Put(st, e.h, [kind |-> "domain", D |-> D2, digest |-> (IF Has(e.out, "digest") THEN e.out.digest ELSE "none")])
+  IN  IF ~Injective(a, m) THEN Ok(s2)                      \* outside the property
+      ELSE IF Has(e.out, "exc") THEN Fail("Rename:exception", st)
+      ELSE IF [i \in DOMAIN e.out.sig |-> <<e.out.sig[i][1], e.out.sig[i][2]>>] = b.params THEN Ok(s2)
+      ELSE Fail("Rename:signature", s2)
+
+----------------------------------------------------------------------------
 (* Grounding (C20) *)
 
 LitOfJson(j) == [pos |-> j[1], p |-> j[2], a |-> j[3], ty |-> j[4]]
@@ -377,6 +393,7 @@ Judge(e, st) ==
     [] e.c = "ExportTrajectory" -> JExportTrajectory(e, st)
     [] e.c = "ParseTrajectory"  -> JParseTrajectory(e, st)
     [] e.c = "Ground"       -> JGround(e, st)
+    [] e.c = "Rename"       -> JRename(e, st)
     [] e.c = "ExportDomain" -> JExportDomain(e, st)
     [] e.c = "ExportProblem" -> JExportProblem(e, st)
     [] e.c = "CopyState"    -> JCopyState(e, st)
